@@ -19,8 +19,8 @@ EXPLANATION = (
     "effects and read no clock/RNG/env; (TOTAL) in the plan sanitiser every operation on an untrusted value is dominated by "
     "an isinstance narrowing, short-circuited behind one, or inside try/except Exception; (SCHEMA) the limits are the imported "
     "schema constants, applied to the very values that are returned, and key sets equal the schema's. Not decided: threshold "
-    "monotonicity as an I/O law, behaviour of arbitrary LLMs; whether a regex substitution in _sanitize_utterance can "
-    "lengthen a text is left undecided."
+    "monotonicity as an I/O law, behaviour of arbitrary LLMs. The utterance filter that runs after speak is decided per rule: "
+    "the replacement has no more whitespace tokens than a lower bound of what every match touches (parsed pattern)."
 )
 RULES = {
     "C13.CAP": "dominance of the truncation over the Plan constructor + no later append; cap provenance",
@@ -38,6 +38,7 @@ DIALOGUE = "clematis.engine.stages.t3.dialogue"
 SAN = "clematis.engine.policy.sanitize"
 SCHEMAS = "clematis.engine.policy.json_schemas"
 RUN_TURN = "clematis.engine.orchestrator.core:Orchestrator.run_turn"
+CORE_MOD = "clematis.engine.orchestrator.core"
 
 
 def rule_cap(ctx) -> None:
@@ -187,8 +188,145 @@ def rule_tok(ctx) -> None:
               "_truncate_to_tokens does not keep a max_tokens prefix of its own tokenisation")
     tk = ctx.func(DIALOGUE + ":_tokenize")
     ctx.check(".split()" in src(tk.node), "C13.TOK", f"{tk.qual}/whitespace-split", tk.loc(), "_tokenize = str.split() (whitespace tokens)", "_tokenize is not whitespace split()")
-    ctx.undecided("C13.TOK", f"{RUN_TURN}/_sanitize_utterance", "clematis/engine/orchestrator/core.py",
-                  "whether the regex substitutions of _sanitize_utterance (applied after speak) can lengthen a text is not decided")
+    _sanitiser_rules_do_not_lengthen(ctx)
+
+
+def _min_gaps(items) -> int:
+    """lower bound on the number of whitespace GAPS every match of a parsed regex sequence contains (a gap = a mandatory run of
+    whitespace between two mandatory non-whitespace elements; optional elements and anything not understood count 0).  A match
+    with g gaps touches at least g + 1 whitespace-separated tokens."""
+    import re._constants as C
+    ws_cat = {C.CATEGORY_SPACE}
+    seq = []  # 'w' mandatory non-space, 's' mandatory space, '?' unknown / optional, or an int = gaps of a nested unit
+
+    def classify(op, av):
+        if op is C.LITERAL:
+            return "s" if chr(av).isspace() else "w"
+        if op is C.NOT_LITERAL:
+            return "?"
+        if op is C.IN:
+            kinds = set()
+            for o2, a2 in av:
+                if o2 is C.CATEGORY:
+                    kinds.add("s" if a2 in ws_cat else "?")
+                elif o2 is C.LITERAL:
+                    kinds.add("s" if chr(a2).isspace() else "w")
+                else:
+                    kinds.add("?")
+            return kinds.pop() if len(kinds) == 1 else "?"
+        if op is C.AT:
+            return None  # zero-width
+        if op is C.ANY:
+            return "?"
+        return "?"
+
+    for op, av in items:
+        if op is C.SUBPATTERN:
+            sub = av[-1]
+            seq.append(("unit", _min_gaps(list(sub)), _edge(list(sub), 0), _edge(list(sub), -1)))
+        elif op is C.BRANCH:
+            seq.append(("unit", min(_min_gaps(list(b)) for b in av[1]), "?", "?"))
+        elif op in (C.MAX_REPEAT, C.MIN_REPEAT, getattr(C, "POSSESSIVE_REPEAT", None)):
+            lo, hi, sub = av
+            k = classify(*list(sub)[0]) if len(list(sub)) == 1 else None
+            if lo == 0:
+                seq.append(("unit", 0, "?", "?"))
+            elif k in ("s", "w"):
+                seq.append((k,))
+            else:
+                seq.append(("unit", lo * _min_gaps(list(sub)), "?", "?"))
+        else:
+            k = classify(op, av)
+            if k is not None:
+                seq.append((k,))
+    gaps = 0
+    prev = None  # last mandatory kind seen: 'w' / 's' / '?'
+    pending_space = False
+    for it in seq:
+        if it[0] == "unit":
+            gaps += it[1]
+            first, last = it[2], it[3]
+            if pending_space and prev == "w" and first == "w":
+                gaps += 1
+            pending_space = False
+            prev = last
+            continue
+        k = it[0]
+        if k == "s":
+            if prev == "w":
+                pending_space = True
+        elif k == "w":
+            if pending_space:
+                gaps += 1
+            pending_space = False
+            prev = "w"
+        else:
+            pending_space = False
+            prev = "?"
+    return gaps
+
+
+def _edge(items, idx):
+    import re._constants as C
+    its = [x for x in items if x[0] is not C.AT]
+    if not its:
+        return "?"
+    op, av = its[idx]
+    if op is C.LITERAL:
+        return "s" if chr(av).isspace() else "w"
+    return "?"
+
+
+def _sanitiser_rules_do_not_lengthen(ctx) -> None:
+    """"the utterance never exceeds its token budget": run_turn filters the line AFTER speak / llm_speak truncated it, so no filter
+    rule may add tokens.  A rule (pattern, replacement) is safe when the replacement has no more whitespace-separated tokens than
+    every match must touch: tokens(replacement) <= gaps(pattern) + 1, with gaps(pattern) a lower bound read off the parsed
+    pattern (re._parser): mandatory whitespace between mandatory non-whitespace."""
+    import re._parser as P
+    m = ctx.prog.module(CORE_MOD)
+    table = None
+    for st in m.tree.body:
+        tgt = st.target if isinstance(st, ast.AnnAssign) else (st.targets[0] if isinstance(st, ast.Assign) else None)
+        if isinstance(tgt, ast.Name) and isinstance(getattr(st, "value", None), ast.List) and all(isinstance(e, ast.Tuple) and len(e.elts) == 3 for e in st.value.elts) and st.value.elts \
+                and all(isinstance(e.elts[1], ast.Call) and dotted(e.elts[1].func) == "re.compile" for e in st.value.elts):
+            table = st.value
+    if table is None:
+        raise AnalysisError("anchor-vanished: the utterance filter's rule table")
+    # the filter runs after the truncation?  (if it ran before, lengthening would be cut again)
+    ctx.floor("C13.TOK", "utterance filter rules", len(table.elts), 3)
+    for e in table.elts:
+        tag = const_str(e.elts[0]) or "?"
+        pat = const_str(e.elts[1].args[0]) if e.elts[1].args else None
+        def cev(x):
+            # literal, module-level string constant, or a + of those
+            if const_str(x) is not None:
+                return const_str(x)
+            if isinstance(x, ast.Name):
+                vals = [st.value for st in m.tree.body if isinstance(st, (ast.Assign, ast.AnnAssign)) and getattr(st, "value", None) is not None
+                        and any(isinstance(t, ast.Name) and t.id == x.id for t in (st.targets if isinstance(st, ast.Assign) else [st.target]))]
+                return cev(vals[0]) if len(vals) == 1 else None
+            if isinstance(x, ast.BinOp) and isinstance(x.op, ast.Add):
+                a, b = cev(x.left), cev(x.right)
+                return a + b if a is not None and b is not None else None
+            return None
+        repl = cev(e.elts[2])
+        key = f"{RUN_TURN}/filter-rule-does-not-lengthen:{tag}"
+        if pat is None or repl is None:
+            ctx.undecided("C13.TOK", key, f"clematis/engine/orchestrator/core.py:{e.lineno}", "pattern or replacement is not a literal")
+            continue
+        if "\\" in repl and any(ch.isdigit() or ch == "g" for ch in repl.split("\\", 1)[1][:1]):
+            ctx.undecided("C13.TOK", key, f"clematis/engine/orchestrator/core.py:{e.lineno}", "replacement uses a group reference")
+            continue
+        try:
+            gaps = _min_gaps(list(P.parse(pat)))
+        except Exception as ex:  # noqa
+            ctx.undecided("C13.TOK", key, f"clematis/engine/orchestrator/core.py:{e.lineno}", f"pattern not parsed: {ex}")
+            continue
+        r = len(repl.split())
+        ctx.check(r <= gaps + 1, "C13.TOK", key, f"clematis/engine/orchestrator/core.py:{e.lineno}",
+                  f"replacement {repl!r} has {r} token(s); every match of the pattern touches at least {gaps + 1} (lower bound)",
+                  f"the replacement {repl!r} has {r} tokens but a match of `{pat[:50]}` is only known to touch {gaps + 1} token(s) (lower bound from the parsed pattern): the filter runs after speak truncated the line to its budget, so "
+                  "each such match makes the utterance longer than its token budget")
 
 
 def rule_pure(ctx) -> None:
